@@ -1,14 +1,122 @@
-import PeptVerif.Model.Search
+import PeptVerif.Lemmas.Search
 /-!
 # C16 — subsequence search and coverage find every occurrence
 
-Property theorems only. Model: `Model/Search.lean`.
+Property theorems only. Model: `Model/Search.lean` (the code after the `overlapped=True` repair); `slice` and `==`
+are the shared models `Pept.Reorder.slice` and `Pept.annEq`. Helper lemmas: `Lemmas/Search.lean`.
+
+Reading decisions: "the query's modifications equal those of the target on that stretch" is the library's own
+slice-and-compare (`other.slice(i, i+|q|) == q`, global modifications compared whole); the unordered test is about the
+residue keys that `count_residues` produces.
 -/
 namespace Pept
 namespace Search
 
-/-- C16, order-insensitive containment: the test `all(sub_counts[k] <= seq_counts[k] for k in sub_counts)` holds
-exactly when every key occurs in the query at most as often as in the target (multiset inclusion). -/
+/-! ## 1. the scan finds every occurrence, overlapping ones included -/
+
+/-- the model of `regex.finditer(q, t, overlapped=True)` for a literal `q`: offset `k` is reported iff `q` occurs at `k` -/
+theorem occurrences_spec (q t : List Char) (k : Nat) :
+    k ∈ occurrences q t ↔ k + q.length ≤ t.length ∧ (t.drop k).take q.length = q :=
+  mem_occurrences q t k
+
+/-- `find_indices`: offset `i` is returned iff the query's residues occur at `i` and the slice of the target at
+that stretch compares equal to the query (`is_subsequence` of the slice: the slice is sliced once more from 0, as
+the code does). All lengths, all annotations. -/
+theorem findIndices_spec (q t : Annotation) (i : Nat) :
+    i ∈ findIndices q t ↔
+      i + q.seq.length ≤ t.seq.length ∧ (t.seq.drop i).take q.seq.length = q.seq ∧
+      annEq (sliceAt (sliceAt t i q.seq.length) 0 q.seq.length) q = true :=
+  mem_findIndices q t i
+
+/-- the offsets are strictly increasing: no duplicates, and together with `findIndices_spec` every occurrence —
+overlapping or not — is present exactly once -/
+theorem findIndices_increasing (q t : Annotation) : (findIndices q t).Pairwise (· < ·) :=
+  findIndices_sorted q t
+
+/-- overlapping occurrences are found: `AA` in `AAA` (the witness of KF-C16-overlapping-occurrences) -/
+theorem overlapping_found : findIndices (Reorder.plain ['A', 'A']) (Reorder.plain ['A', 'A', 'A']) = [0, 1] := by decide
+
+/-- … whereas the scan without `overlapped=True` (the code before the repair) skips offset 1 -/
+theorem nonoverlapping_scan_misses : occNonOverlap ['A', 'A'] ['A', 'A', 'A'] = [0] := by decide
+
+/-! ## 2. with modifications ignored it is plain substring search -/
+
+/-- `find_subsequence_indices(…, ignore_mods=True)` = all offsets of the residue string (and `[]` if either is empty) -/
+theorem ignore_mods_substring (t q : Annotation) :
+    findSubsequenceIndices t q true = if t.seq = [] ∨ q.seq = [] then [] else occurrences q.seq t.seq := by
+  unfold findSubsequenceIndices
+  by_cases ht : t.seq = []
+  · simp [ht]
+  · by_cases hq : q.seq = []
+    · simp [hq]
+    · have h1 : t.seq.isEmpty = false := by cases h : t.seq <;> simp_all
+      have h2 : q.seq.isEmpty = false := by cases h : q.seq <;> simp_all
+      simp only [h1, h2, ht, hq, Bool.false_eq_true, if_false, if_true, or_self, strip]
+      exact findIndices_plain q.seq t.seq
+
+example : findSubsequenceIndices { seq := ['A', 'A', 'A'], nterm := some [⟨.str ['x'], 1⟩] } (Reorder.plain ['A', 'A']) true
+    = [0, 1] := by decide
+
+/-! ## 3. coverage -/
+
+/-- `coverage(..., accumulate=False)`: position `j` is marked 1 iff some listed subsequence has an occurrence
+containing `j`, else it is 0 -/
+theorem coverage_iff (t : Annotation) (subs : List Annotation) (ign : Bool) (j : Nat) (hj : j < t.seq.length) :
+    (coverage t subs false ign)[j]? =
+      some (if ∃ q ∈ subs, ∃ i ∈ findSubsequenceIndices t q ign, i ≤ j ∧ j < i + q.seq.length then 1 else 0) := by
+  rw [coverage_eq_applyOccs, applyOccs_set _ _ (allOccs_valid t subs ign) j (by simpa using hj)]
+  congr 1
+  by_cases h : ∃ q ∈ subs, ∃ i ∈ findSubsequenceIndices t q ign, i ≤ j ∧ j < i + q.seq.length
+  · rw [if_pos ((allOccs_any t subs ign j).mpr h), if_pos h]
+  · have : ¬ ((allOccs t subs ign).any (covers j) = true) := fun hh => h ((allOccs_any t subs ign j).mp hh)
+    rw [if_neg this, if_neg h]; simp
+
+/-- `coverage(..., accumulate=True)`: position `j` holds the number of (subsequence, occurrence) pairs containing it -/
+theorem coverage_accumulate_count (t : Annotation) (subs : List Annotation) (ign : Bool) (j : Nat)
+    (hj : j < t.seq.length) :
+    (coverage t subs true ign)[j]? =
+      some ((subs.map fun q => ((findSubsequenceIndices t q ign).filter
+          (fun i => decide (i ≤ j ∧ j < i + q.seq.length))).length).sum) := by
+  rw [coverage_eq_applyOccs, applyOccs_add _ _ (allOccs_valid t subs ign) j (by simpa using hj)]
+  simp [allOccs_count]
+
+/-- the coverage array has one entry per residue of the target -/
+theorem coverage_length (t : Annotation) (subs : List Annotation) (acc ign : Bool) :
+    (coverage t subs acc ign).length = t.seq.length := by
+  rw [coverage_eq_applyOccs, applyOccs_length _ _ _ (allOccs_valid t subs ign)]; simp
+
+/-- `percent_coverage` is the fraction of marked positions and lies in `[0, 1]` -/
+theorem percent_coverage_unit (t : Annotation) (subs : List Annotation) (ign : Bool) :
+    percentCoverage t subs ign
+        = (((coverage t subs false ign).countP (· ≠ 0) : Nat) : Rat) / ((t.seq.length : Nat) : Rat)
+      ∧ 0 ≤ percentCoverage t subs ign ∧ percentCoverage t subs ign ≤ 1 := by
+  have hlen := coverage_length t subs false ign
+  have hle : ∀ x ∈ coverage t subs false ign, x ≤ 1 := by
+    intro x hx
+    obtain ⟨j, hjl, rfl⟩ := List.getElem_of_mem hx
+    have := coverage_iff t subs ign j (by rw [← hlen]; exact hjl)
+    rw [List.getElem?_eq_getElem hjl] at this
+    have := Option.some.inj this
+    rw [this]; split <;> omega
+  have hsum := sum_eq_countP_of_le_one _ hle
+  have hsl := sum_le_length_of_le_one _ hle
+  unfold percentCoverage
+  simp only [hlen]
+  by_cases hn : t.seq.length = 0
+  · simp [hn]
+  · simp only [hn, if_false]
+    have hpos : (0 : Rat) < ((t.seq.length : Nat) : Rat) := by exact_mod_cast Nat.pos_of_ne_zero hn
+    refine ⟨by rw [hsum], div_nonneg (by exact_mod_cast Nat.zero_le _) (le_of_lt hpos), ?_⟩
+    rw [div_le_one hpos]
+    rw [hlen] at hsl
+    exact_mod_cast hsl
+
+example : coverage (Reorder.plain ['A', 'A', 'A', 'K']) [Reorder.plain ['A', 'A']] true false = [1, 2, 1, 0] := by decide
+
+/-! ## 4. order-insensitive containment -/
+
+/-- the test `all(sub_counts[k] <= seq_counts[k] for k in sub_counts)` holds exactly when every key occurs in the
+query at most as often as in the target -/
 theorem unordered_iff_count_le {κ : Type} [DecidableEq κ] (sub seq : List κ) :
     unorderedContained sub seq = true ↔ ∀ k, sub.count k ≤ seq.count k := by
   unfold unorderedContained
@@ -20,6 +128,12 @@ theorem unordered_iff_count_le {κ : Type} [DecidableEq κ] (sub seq : List κ) 
     · rw [List.count_eq_zero_of_not_mem hk]; exact Nat.zero_le _
   · intro h k _
     simpa using h k
+
+/-- … i.e. exactly when the multiset of the query's keys is contained in that of the target's -/
+theorem unordered_iff_multiset_le {κ : Type} [DecidableEq κ] (sub seq : List κ) :
+    unorderedContained sub seq = true ↔ (sub : Multiset κ) ≤ (seq : Multiset κ) := by
+  rw [unordered_iff_count_le, Multiset.le_iff_count]
+  simp only [Multiset.coe_count]
 
 example : unorderedContained ['T', 'E', 'P'] ['P', 'E', 'P', 'T'] = true := by decide
 example : unorderedContained ['P', 'P', 'P'] ['P', 'E', 'P', 'T'] = false := by decide
